@@ -113,111 +113,129 @@ theorem enz_desc_right (mc : Nat) (lo hiE : Int) (L : List Int) (hL : SSorted L)
 
 /-- left semi spans produced from the enzymatic list: start is a cleavage point, end is not, some
 cleavage point at or after the end is reachable with at most `mc` missed cleavages -/
+theorem groupedLeft_enz_sound (mc : Nat) (lo hiE hi : Int) (L : List Int) (hL : SSorted L) (hlo : 1 ≤ lo)
+    (s e v : Int) (h : (s, e, v) ∈ groupedLeft (enzGo mc lo hiE L) (some lo) (some hi)) :
+      lo ≤ e - s ∧ e - s ≤ hi ∧ s ∈ L ∧ e ∉ L ∧ v = (inside L s e : Int) ∧
+        ∃ e' ∈ L, e ≤ e' ∧ inside L s e' ≤ mc := by
+  revert h
+  rw [groupedLeft_eq, mem_grouped buildSpec_left _ _ leLeft_tot leLeft_tr leLeft_key _
+    (nodup_enzGo mc lo hiE L hL) (enz_desc_left mc lo hiE L hL)]
+  simp only [Option.getD_some, optLe, ShL, spanLen]
+  rintro ⟨⟨ps, pe, pv⟩, hp, ⟨h1, h1'⟩, h2, h3, h4, h5, h6⟩
+  simp only at h1 h1' h5 h6; subst h1 h1'
+  rw [mem_enzGo _ _ _ _ hL] at hp
+  obtain ⟨hs, hpe, hspe, hpv, hmc, hplo, hphi⟩ := hp
+  have key : ∀ y ∈ L, ¬ (e ≤ y ∧ y < pe) := by
+    rintro y hy ⟨hy1, hy2⟩
+    have hq : (s, y, (inside L s y : Int)) ∈ enzGo mc lo hiE L := by
+      rw [mem_enzGo _ _ _ _ hL]
+      have := inside_mono L s s y pe (by omega) (by omega)
+      exact ⟨hs, hy, by omega, rfl, by omega, by omega, by omega⟩
+    have := h6 _ hq rfl (by simp only; omega)
+    simp only at this; omega
+  refine ⟨h2, h3, hs, ?_, ?_, pe, hpe, by omega, hmc⟩
+  · intro he; exact key e he ⟨by omega, by omega⟩
+  · rw [hpv]; congr 1
+    apply inside_congr
+    intro y hy
+    have := key y hy
+    constructor <;> intro h <;> omega
+
 theorem mem_groupedLeft_enz (mc : Nat) (lo hiE hi : Int) (L : List Int) (hL : SSorted L) (hlo : 1 ≤ lo)
     (hhi : ∀ a ∈ L, ∀ b ∈ L, b - a ≤ hiE) (s e v : Int) :
     (s, e, v) ∈ groupedLeft (enzGo mc lo hiE L) (some lo) (some hi) ↔
       lo ≤ e - s ∧ e - s ≤ hi ∧ s ∈ L ∧ e ∉ L ∧ v = (inside L s e : Int) ∧
         ∃ e' ∈ L, e ≤ e' ∧ inside L s e' ≤ mc := by
+  refine ⟨groupedLeft_enz_sound mc lo hiE hi L hL hlo s e v, ?_⟩
   rw [groupedLeft_eq, mem_grouped buildSpec_left _ _ leLeft_tot leLeft_tr leLeft_key _
     (nodup_enzGo mc lo hiE L hL) (enz_desc_left mc lo hiE L hL)]
   simp only [Option.getD_some, optLe, ShL, spanLen]
-  constructor
-  · rintro ⟨⟨ps, pe, pv⟩, hp, ⟨h1, h1'⟩, h2, h3, h4, h5, h6⟩
-    simp only at h1 h1' h5 h6; subst h1 h1'
-    rw [mem_enzGo _ _ _ _ hL] at hp
-    obtain ⟨hs, hpe, hspe, hpv, hmc, hplo, hphi⟩ := hp
-    have key : ∀ y ∈ L, ¬ (e ≤ y ∧ y < pe) := by
-      rintro y hy ⟨hy1, hy2⟩
-      have hq : (s, y, (inside L s y : Int)) ∈ enzGo mc lo hiE L := by
-        rw [mem_enzGo _ _ _ _ hL]
-        have := inside_mono L s s y pe (by omega) (by omega)
-        exact ⟨hs, hy, by omega, rfl, by omega, by omega, by omega⟩
-      have := h6 _ hq rfl (by simp only; omega)
-      simp only at this; omega
-    refine ⟨h2, h3, hs, ?_, ?_, pe, hpe, by omega, hmc⟩
-    · intro he; exact key e he ⟨by omega, by omega⟩
-    · rw [hpv]; congr 1
-      apply inside_congr
-      intro y hy
-      have := key y hy
-      constructor <;> intro h <;> omega
-  · rintro ⟨h2, h3, hs, he, hv, e', he', hee', hmc⟩
-    obtain ⟨m, hm, hem, hmin⟩ := exists_least_ge L e ⟨e', he', hee'⟩
-    have hne : m ≠ e := by rintro rfl; exact he hm
-    have hmc' : inside L s m ≤ mc := by
-      have := inside_mono L s s m e' (by omega) (hmin e' he' hee'); omega
-    refine ⟨(s, m, (inside L s m : Int)), ?_, ⟨rfl, ?_⟩, h2, h3, by omega, by simp only; omega, ?_⟩
-    · rw [mem_enzGo _ _ _ _ hL]
-      exact ⟨hs, hm, by omega, rfl, hmc', by omega, hhi s hs m hm⟩
-    · simp only; rw [hv]; congr 1
-      apply inside_congr
-      intro y hy
-      constructor
-      · intro h; omega
-      · intro h
-        refine ⟨h.1, ?_⟩
-        by_cases hye : e ≤ y
-        · have := hmin y hy hye; omega
-        · omega
-    · rintro ⟨qs, qe, qv⟩ hq hk hlt
-      simp only at hk hlt ⊢; subst hk
-      rw [mem_enzGo _ _ _ _ hL] at hq
-      by_cases hye : e ≤ qe
-      · have := hmin qe hq.2.1 hye; omega
+  rintro ⟨h2, h3, hs, he, hv, e', he', hee', hmc⟩
+  obtain ⟨m, hm, hem, hmin⟩ := exists_least_ge L e ⟨e', he', hee'⟩
+  have hne : m ≠ e := by rintro rfl; exact he hm
+  have hmc' : inside L s m ≤ mc := by
+    have := inside_mono L s s m e' (by omega) (hmin e' he' hee'); omega
+  refine ⟨(s, m, (inside L s m : Int)), ?_, ⟨rfl, ?_⟩, h2, h3, by omega, by simp only; omega, ?_⟩
+  · rw [mem_enzGo _ _ _ _ hL]
+    exact ⟨hs, hm, by omega, rfl, hmc', by omega, hhi s hs m hm⟩
+  · simp only; rw [hv]; congr 1
+    apply inside_congr
+    intro y hy
+    constructor
+    · intro h; omega
+    · intro h
+      refine ⟨h.1, ?_⟩
+      by_cases hye : e ≤ y
+      · have := hmin y hy hye; omega
       · omega
+  · rintro ⟨qs, qe, qv⟩ hq hk hlt
+    simp only at hk hlt ⊢; subst hk
+    rw [mem_enzGo _ _ _ _ hL] at hq
+    by_cases hye : e ≤ qe
+    · have := hmin qe hq.2.1 hye; omega
+    · omega
 
 /-- right semi spans produced from the enzymatic list -/
+theorem groupedRight_enz_sound (mc : Nat) (lo hiE hi : Int) (L : List Int) (hL : SSorted L) (hlo : 1 ≤ lo)
+    (s e v : Int) (h : (s, e, v) ∈ groupedRight (enzGo mc lo hiE L) (some lo) (some hi)) :
+      lo ≤ e - s ∧ e - s ≤ hi ∧ e ∈ L ∧ s ∉ L ∧ v = (inside L s e : Int) ∧
+        ∃ s' ∈ L, s' ≤ s ∧ inside L s' e ≤ mc := by
+  revert h
+  rw [groupedRight_eq, mem_grouped buildSpec_right _ _ leRight_tot leRight_tr leRight_key _
+    (nodup_enzGo mc lo hiE L hL) (enz_desc_right mc lo hiE L hL)]
+  simp only [Option.getD_some, optLe, ShR, spanLen]
+  rintro ⟨⟨ps, pe, pv⟩, hp, ⟨h1, h1'⟩, h2, h3, h4, h5, h6⟩
+  simp only at h1 h1' h5 h6; subst h1 h1'
+  rw [mem_enzGo _ _ _ _ hL] at hp
+  obtain ⟨hps, he, hspe, hpv, hmc, hplo, hphi⟩ := hp
+  have key : ∀ y ∈ L, ¬ (ps < y ∧ y ≤ s) := by
+    rintro y hy ⟨hy1, hy2⟩
+    have hq : (y, e, (inside L y e : Int)) ∈ enzGo mc lo hiE L := by
+      rw [mem_enzGo _ _ _ _ hL]
+      have := inside_mono L y ps e e (by omega) (by omega)
+      exact ⟨hy, he, by omega, rfl, by omega, by omega, by omega⟩
+    have := h6 _ hq rfl (by simp only; omega)
+    simp only at this; omega
+  refine ⟨h2, h3, he, ?_, ?_, ps, hps, by omega, hmc⟩
+  · intro hs; exact key s hs ⟨by omega, by omega⟩
+  · rw [hpv]; congr 1
+    apply inside_congr
+    intro y hy
+    have := key y hy
+    constructor <;> intro h <;> omega
+
 theorem mem_groupedRight_enz (mc : Nat) (lo hiE hi : Int) (L : List Int) (hL : SSorted L) (hlo : 1 ≤ lo)
     (hhi : ∀ a ∈ L, ∀ b ∈ L, b - a ≤ hiE) (s e v : Int) :
     (s, e, v) ∈ groupedRight (enzGo mc lo hiE L) (some lo) (some hi) ↔
       lo ≤ e - s ∧ e - s ≤ hi ∧ e ∈ L ∧ s ∉ L ∧ v = (inside L s e : Int) ∧
         ∃ s' ∈ L, s' ≤ s ∧ inside L s' e ≤ mc := by
+  refine ⟨groupedRight_enz_sound mc lo hiE hi L hL hlo s e v, ?_⟩
   rw [groupedRight_eq, mem_grouped buildSpec_right _ _ leRight_tot leRight_tr leRight_key _
     (nodup_enzGo mc lo hiE L hL) (enz_desc_right mc lo hiE L hL)]
   simp only [Option.getD_some, optLe, ShR, spanLen]
-  constructor
-  · rintro ⟨⟨ps, pe, pv⟩, hp, ⟨h1, h1'⟩, h2, h3, h4, h5, h6⟩
-    simp only at h1 h1' h5 h6; subst h1 h1'
-    rw [mem_enzGo _ _ _ _ hL] at hp
-    obtain ⟨hps, he, hspe, hpv, hmc, hplo, hphi⟩ := hp
-    have key : ∀ y ∈ L, ¬ (ps < y ∧ y ≤ s) := by
-      rintro y hy ⟨hy1, hy2⟩
-      have hq : (y, e, (inside L y e : Int)) ∈ enzGo mc lo hiE L := by
-        rw [mem_enzGo _ _ _ _ hL]
-        have := inside_mono L y ps e e (by omega) (by omega)
-        exact ⟨hy, he, by omega, rfl, by omega, by omega, by omega⟩
-      have := h6 _ hq rfl (by simp only; omega)
-      simp only at this; omega
-    refine ⟨h2, h3, he, ?_, ?_, ps, hps, by omega, hmc⟩
-    · intro hs; exact key s hs ⟨by omega, by omega⟩
-    · rw [hpv]; congr 1
-      apply inside_congr
-      intro y hy
-      have := key y hy
-      constructor <;> intro h <;> omega
-  · rintro ⟨h2, h3, he, hs, hv, s', hs', hss', hmc⟩
-    obtain ⟨m, hm, hem, hmax⟩ := exists_greatest_le L s ⟨s', hs', hss'⟩
-    have hne : m ≠ s := by rintro rfl; exact hs hm
-    have hmc' : inside L m e ≤ mc := by
-      have := inside_mono L m s' e e (hmax s' hs' hss') (by omega); omega
-    refine ⟨(m, e, (inside L m e : Int)), ?_, ⟨rfl, ?_⟩, h2, h3, by omega, by simp only; omega, ?_⟩
-    · rw [mem_enzGo _ _ _ _ hL]
-      exact ⟨hm, he, by omega, rfl, hmc', by omega, hhi m hm e he⟩
-    · simp only; rw [hv]; congr 1
-      apply inside_congr
-      intro y hy
-      constructor
-      · intro h; omega
-      · intro h
-        refine ⟨?_, h.2⟩
-        by_cases hye : y ≤ s
-        · have := hmax y hy hye; omega
-        · omega
-    · rintro ⟨qs, qe, qv⟩ hq hk hlt
-      simp only at hk hlt ⊢; subst hk
-      rw [mem_enzGo _ _ _ _ hL] at hq
-      by_cases hye : qs ≤ s
-      · have := hmax qs hq.1 hye; omega
+  rintro ⟨h2, h3, he, hs, hv, s', hs', hss', hmc⟩
+  obtain ⟨m, hm, hem, hmax⟩ := exists_greatest_le L s ⟨s', hs', hss'⟩
+  have hne : m ≠ s := by rintro rfl; exact hs hm
+  have hmc' : inside L m e ≤ mc := by
+    have := inside_mono L m s' e e (hmax s' hs' hss') (by omega); omega
+  refine ⟨(m, e, (inside L m e : Int)), ?_, ⟨rfl, ?_⟩, h2, h3, by omega, by simp only; omega, ?_⟩
+  · rw [mem_enzGo _ _ _ _ hL]
+    exact ⟨hm, he, by omega, rfl, hmc', by omega, hhi m hm e he⟩
+  · simp only; rw [hv]; congr 1
+    apply inside_congr
+    intro y hy
+    constructor
+    · intro h; omega
+    · intro h
+      refine ⟨?_, h.2⟩
+      by_cases hye : y ≤ s
+      · have := hmax y hy hye; omega
       · omega
+  · rintro ⟨qs, qe, qv⟩ hq hk hlt
+    simp only at hk hlt ⊢; subst hk
+    rw [mem_enzGo _ _ _ _ hL] at hq
+    by_cases hye : qs ≤ s
+    · have := hmax qs hq.1 hye; omega
+    · omega
 
 end Spans
